@@ -17,20 +17,38 @@ RAL = "alephium/contracts/governance.ral"
 
 def extract(ctx):
     facts = {}
-    go = vlib.read(os.path.join(vlib.REPO, GO))
-    m = re.search(r"func\s+CalculateQuorum\s*\(\s*(\w+)\s+int\s*\)\s*int\s*\{\s*return\s+([^\n;]+?)\s*\}", go)
-    if not m:
-        ctx.gen_fail("C07", "CalculateQuorum is no longer a single return expression over one int parameter in " + GO)
+    # constants folded (tools/gofold); a straight-line body `x := e ... return e'` is inlined into one expression
+    go = re.sub(r"//[^\n]*", "", vlib.gofold(GO))
+    m = re.search(r"func\s+CalculateQuorum\s*\(\s*(\w+)\s+int\s*\)\s*int\s*\{(.*?)\n\}", go, re.S)
+    expr = None
+    if m:
+        env, ok = {}, True
+        for ln in [l.strip().rstrip(";") for l in m.group(2).split("\n") if l.strip()]:
+            a = re.match(r"^(?:var\s+)?(\w+)\s*(?::=|=)\s*(.+)$", ln)
+            r = re.match(r"^return\s+(.+)$", ln)
+            inl = lambda e: re.sub(r"\b[A-Za-z_]\w*\b", lambda t: "(" + env[t.group(0)] + ")" if t.group(0) in env else t.group(0), e)
+            if expr is not None:
+                ok = False
+            elif a and a.group(1) != m.group(1):
+                env[a.group(1)] = inl(a.group(2))
+            elif r:
+                expr = inl(r.group(1))
+            else:
+                ok = False
+        if not ok:
+            expr = None
+    if not m or expr is None:
+        ctx.gen_fail("C07", "CalculateQuorum is no longer straight-line code ending in one return expression over one int parameter in " + GO)
     else:
-        facts["go"] = (m.group(1), m.group(2).strip(), GO)
-    sol = vlib.read(os.path.join(vlib.REPO, SOL))
+        facts["go"] = (m.group(1), expr.strip(), GO)
+    sol = vlib.read_contract(SOL)
     m = re.search(r"function\s+quorum\s*\(\s*uint(\d*)\s+(\w+)\s*\)[^{]*\{\s*return\s+([^;]+);\s*\}", sol)
     if not m:
         ctx.gen_fail("C07", "quorum() is no longer a single return expression in " + SOL)
     else:
         facts["sol"] = (m.group(2), m.group(3).strip(), SOL)
         facts["_solWidth"] = int(m.group(1) or 256)
-    ral = vlib.read(os.path.join(vlib.REPO, RAL))
+    ral = vlib.read_contract(RAL)
     m = re.search(r"let\s+quorumSize\s*=\s*([^\n]+)\n\s*assert!\(\s*quorumSize\s*<=\s*signatureSize\s*,", ral)
     if not m:
         ctx.gen_fail("C07", "`let quorumSize = <expr>` followed by `assert!(quorumSize <= signatureSize` not found in " + RAL)
@@ -98,7 +116,9 @@ def run(ctx):
     facts, ok = gen(ctx)
     sol_width = facts.pop("_solWidthKept", 256)
     if ok:
-        ctx.prove()
+        ctx.prove(families=("processor",))
+    else:
+        ctx.lake_build(["drv_processor"])
 
     # --- validate the translation against the compiled Go function, and search for a failing n
     ov = ctx.overlay({"node/pkg/processor/zz_verif_c07_test.go": "processor/c07_test.go"})
@@ -158,4 +178,9 @@ def run(ctx):
         "Solidity and Ralph integer semantics: uint/U256 truncating division on naturals (overflow impossible for n <= 255)",
         "Go int overflow ignored (n*10 < 2^63 for every slice length)",
     ]
+    # --- "a VAA the node considers complete is accepted on chain": the real Processor's published / stored VAAs are judged by
+    # the contract model (Whv.Model.Contract) under the set they name - Spec clause complete-vaa-rejected-on-chain
+    from checks import proccommon
+    proccommon.run_processor(ctx, "C07", "C07 judges every VAA the node publishes from its own observation, and every inbound VAA naming the "
+                             "current set that it stores, with the contract-side model (threshold, ascending indices, positional ecrecover).")
     ctx.assumptions += ["the contracts are never executed here (no solc / no Alephium VM): their formulas are tied by source translation only"]
